@@ -19,7 +19,7 @@
 (***************************************************************************)
 EXTENDS Naturals, Sequences, FiniteSets, TLC
 
-CONSTANTS MaxTests, MaxOps, Family     \* Family: "all" | "interplay" (operations whose restore order / option context matters)
+CONSTANTS MaxTests, MaxOps, Family     \* Family: "all" | "interplay" (operations whose restore order / option context matters) | "persist"
 
 VarNames == {"v1", "BASH_MYVAR"}    \* an ordinary name, and a user variable whose name starts like bash-owned ones
 Values   == {"plain", "spaces", "squote", "dquote", "newline", "utf8", "empty", "glob_chars", "dollar"}
@@ -36,6 +36,10 @@ Op(name, a, b, c) == [op |-> name, a |-> a, b |-> b, c |-> c]
 OpsOn(st) ==
       {Op("setvar", n, k, v) : n \in VarNames, k \in {"scalar", "indexed", "assoc"}, v \in Values}
  \cup {Op("setexported", n, "scalar", v) : n \in VarNames, v \in Values}
+ \* a variable given through the test case's `environment` configuration (only for names the session does not hold yet:
+ \* what a configured value means for a name the restored state also defines is not specified); it behaves like an exported
+ \* variable of that test case's shell and is carried on like one
+ \cup {Op("cfgenv", n, "scalar", v) : n \in {x \in VarNames : st.vars[x].kind = "unset"}, v \in Values}
  \cup {Op("unsetvar", n, "-", "-") : n \in {x \in VarNames : st.vars[x].kind # "unset"}}
  \cup {Op("export", n, "-", "-") : n \in {x \in VarNames : st.vars[x].kind = "scalar" /\ ~st.vars[x].ex}}
  \cup {Op("unexport", n, "-", "-") : n \in {x \in VarNames : st.vars[x].ex}}
@@ -55,10 +59,10 @@ Interplay(o) == \/ o.op = "shopt" /\ o.a = "extglob"
                 \/ o.op = "deffunc" \/ o.op = "defalias"
                 \/ o.op = "setvar" /\ o.a = "v1" /\ o.b \in {"scalar", "indexed"} /\ o.c \in {"glob_chars", "dollar"}
                 \/ o.op = "pushd" /\ o.a = "sub1"
-OpsFor(st) == IF Family = "interplay" THEN {o \in OpsOn(st) : Interplay(o)} ELSE OpsOn(st)
 
 Apply(st, o) ==
     CASE o.op = "setvar"      -> [st EXCEPT !.vars[o.a] = [kind |-> o.b, ex |-> FALSE, val |-> o.c]]
+      [] o.op = "cfgenv"      -> [st EXCEPT !.vars[o.a] = [kind |-> "scalar", ex |-> TRUE, val |-> o.c]]
       [] o.op = "setexported" -> [st EXCEPT !.vars[o.a] = [kind |-> "scalar", ex |-> TRUE, val |-> o.c]]
       [] o.op = "unsetvar"    -> [st EXCEPT !.vars[o.a] = UnsetVar]
       [] o.op = "export"      -> [st EXCEPT !.vars[o.a].ex = TRUE]
@@ -87,6 +91,19 @@ VARIABLES hist,      \* the test cases run so far: sequence of [ops, detached]
           pc, cur    \* cur: the test case being run
 vars == <<hist, sess, file, proc, obs, ref, pc, cur>>
 
+\* family "persist": the first test case turns ONE option on, the second performs one representative operation (or turns
+\* that option off again), the third only looks: options under which the EXIT-trap dump itself runs (noclobber, nounset, ...)
+Representative(o) == \/ o.op \in {"setvar", "setexported", "cfgenv"} /\ o.a = "v1" /\ o.b = "scalar" /\ o.c = "plain"
+                     \/ o.op \in {"deffunc", "defalias"} /\ o.b = "1"
+                     \/ o.op \in {"cd", "pushd"} /\ o.a = "sub1"
+                     \/ o.op = "setopt" /\ (o.b = "off" \/ o.a = "pipefail")
+                     \/ o.op = "shopt" /\ (o.b = "off" \/ o.a = "nullglob")
+OpsFor(st) == CASE Family = "interplay" -> {o \in OpsOn(st) : Interplay(o)}
+                [] Family = "persist" -> (CASE Len(hist) = 0 -> {o \in OpsOn(st) : o.op \in {"setopt", "shopt"} /\ o.b = "on"}
+                                            [] Len(hist) = 1 -> {o \in OpsOn(st) : Representative(o)}
+                                            [] OTHER -> {})
+                [] OTHER -> OpsOn(st)
+
 Init == /\ hist = <<>> /\ sess = InitState /\ file = InitState /\ proc = InitState /\ obs = <<>> /\ ref = <<>>
         /\ pc = "idle" /\ cur = [ops |-> <<>>, detached |-> FALSE]
 
@@ -98,7 +115,8 @@ Start == /\ pc = "idle" /\ Len(hist) < MaxTests
          /\ UNCHANGED <<hist, sess, file, obs, ref>>
 \* the shell expression runs: one state-changing operation at a time
 RunOp == /\ pc = "run" /\ Len(cur.ops) < MaxOps
-         /\ \E o \in OpsFor(proc) : proc' = Apply(proc, o) /\ cur' = [cur EXCEPT !.ops = Append(@, o)]
+         /\ \E o \in OpsFor(proc) : /\ (o.op = "cfgenv" => cur.ops = <<>>)        \* configuration comes before the expression
+                                    /\ proc' = Apply(proc, o) /\ cur' = [cur EXCEPT !.ops = Append(@, o)]
          /\ UNCHANGED <<hist, sess, file, obs, ref, pc>>
 EndOps == /\ pc = "run" /\ pc' = "probe"
           /\ UNCHANGED <<hist, sess, file, proc, obs, ref, cur>>
